@@ -1318,15 +1318,40 @@ pub fn run_faults<C: OrdColl>(tr: &mut Trace, paths: &[(usize, Vec<POp>)], keys:
     }
 }
 
+/// Start states are trees the *specification* allows.  An implementation may keep a stronger invariant
+/// of its own - the textbook "the root is black" above all - and then a red-rooted start state is one
+/// it can never be in.  The original leaves the root red when a two-entry tree loses its (black) root;
+/// the drivers use red-rooted start states only with an implementation that does the same.
+fn leaves_roots_red<C: OrdColl>() -> bool {
+    let r = observe(0, || {
+        let mut c = C::make(0);
+        c.insert(1, if C::PLAIN { 1 } else { 1001 });
+        c.insert(2, if C::PLAIN { 2 } else { 2001 });
+        c.delete(1);
+        c.snap_json()
+    });
+    match r.out {
+        Outcome::Ok(j) => parse_snap(&j).map_or(false, |s| s.root >= 0 && (s.root as usize) < s.nd.len() && s.nd[s.root as usize][3] == 1),
+        _ => false,
+    }
+}
+fn root_is_red(s: &Snap) -> bool {
+    s.root >= 0 && (s.root as usize) < s.nd.len() && s.nd[s.root as usize][3] == 1
+}
+
 /// One step of every kind from every start state TLC printed for IndOrd.tla (every valid red-black
 /// tree up to a size, in several arena situations): the real collection is put into the state through
 /// the load hook, the call is made, TLC validates the result.  `handles`: before an insertion a handle
 /// is taken for every stored entry, so that the insert is judged for handle stability as well.
 pub fn run_ind<C: OrdColl>(tr: &mut Trace, states: &[Snap], handles: bool) {
+    let red_roots = leaves_roots_red::<C>();
     let mut s: OrdSession<C> = OrdSession::new(tr, 1, 0, 1);
     for snap in states {
         if s.tr.full() {
             break;
+        }
+        if root_is_red(snap) && !red_roots {
+            continue;
         }
         let cap = 0usize;
         if !s.load_snap(snap, cap) {
@@ -1371,10 +1396,14 @@ pub fn run_ind<C: OrdColl>(tr: &mut Trace, states: &[Snap], handles: bool) {
 /// every look-up, handle query, removal and insertion with its j-th callback panicking, j = 1, 2, ..
 /// until the call completes; after each the stored keys are looked up and emptiness is asked.
 pub fn run_ind_faults<C: OrdColl>(tr: &mut Trace, states: &[Snap]) {
+    let red_roots = leaves_roots_red::<C>();
     let mut s: OrdSession<C> = OrdSession::new(tr, 1, 0, 1);
     for snap in states {
         if s.tr.full() {
             break;
+        }
+        if root_is_red(snap) && !red_roots {
+            continue;
         }
         if !s.load_snap(snap, 0) {
             continue;
